@@ -22,7 +22,7 @@ fn root<'a, T: SomeTable<'a> + 'a>(o: &mut Obs, what: &str, r: Result<T, ReadErr
 
 /// The complete observation of `bytes` used as a font file.
 pub fn walk_file(bytes: &[u8], cfg: &WalkCfg) -> Obs {
-    let mut o = Obs::new(cfg.field_budget);
+    let mut o = Obs::for_cfg(cfg);
     // FileRef / CollectionRef
     o.guarded("FileRef", |o| match FileRef::new(bytes) {
         Ok(f) => {
